@@ -39,7 +39,7 @@ def finish(pid, tier, results, info, replay_fn=None, t0=None, seed=0):
     os.makedirs(os.path.join(VERIF, 'evidence', 'replay'), exist_ok=True)
     viol_lines = []; known_lines = []; undecided = []
     n_obl = n_dis = n_bobl = n_bdis = n_excl = n_reach = 0
-    jobs_ev = []; samples = []; functions = {}
+    jobs_ev = []; samples = []; functions = {}; known_ev = []
     solver_s = 0.0
     for r in results:
         obs = r['obligations']
@@ -57,6 +57,10 @@ def finish(pid, tier, results, info, replay_fn=None, t0=None, seed=0):
             k = match_known(known, pid, o)
             if k:
                 known_lines.append('KNOWN-FINDING: property=%s %s [%s: %s]' % (pid, k.get('what', ''), o.function, o.desc))
+                known_ev.append({'job': r['job'], 'function': o.function, 'obligation': o.desc, 'what': k.get('what', '')})
+                # an obligation that is a recorded finding is not part of what this run claims to have discharged
+                if bounded: n_bobl -= 1
+                else: n_obl -= 1
                 continue
             rp = os.path.join(VERIF, 'evidence', 'replay', '%s-%s-%s.json' % (pid, re.sub(r'\W', '_', r['job']), re.sub(r'\W', '_', o.pid or 'x')))
             doc = {'property': pid, 'job': r['job'], 'tier': r['tier'], 'width': r.get('width'), 'failed_obligation': o.short(),
@@ -104,6 +108,7 @@ def finish(pid, tier, results, info, replay_fn=None, t0=None, seed=0):
               'jobs': jobs_ev,
               'solver_seconds_total': round(solver_s, 2),
               'undecided': undecided,
+              'known_findings_not_counted': known_ev,
               'evaluations': max(1, n_obl + n_bobl), 'distinct_nontrivial': max(2, n_dis + n_bdis),
               'rule': 'one evaluation = one CBMC proof obligation generated from the lowered /repo function and its contract; distinct = distinct (function, clause) pairs discharged',
           },
